@@ -427,6 +427,22 @@ func targets() []*target {
 			},
 			params: []string{"(s_jsonMode : bool)", "(s_buf : bytes)"}, result: "option bytes", final: "Some (s_buf)"},
 
+		// ---- Entry.printTimestamp: the first part of every record, in terms of the translated helpers (string_key, echo_color,
+		// the separators); appendTimestamp is the parameter f_ts (C16 decides its text) ----
+		{pkg: slogPkg, recv: "Entry", fn: "printTimestamp", coq: "print_timestamp", file: "Layout", strict: true, fallback: "LayoutRef.print_timestamp_ref",
+			comment: "(returns pc.buf; None = panic)", panicT: "None", retfmt: "Some (%s)", effects: []string{"pc_buf"}, inlineVars: true,
+			opaque: map[string]string{"pc.noColor": "pc_noColor", "pc.now": "tt"},
+			calls: map[string]callSpec{
+				"*PrintCtx.pcAppendStringKey": {state: "Escapes.string_key g_hex m_safeSet pc_jsonMode pc_buf %0", partial: true},
+				"*PrintCtx.pcAppendColon":     {state: "pc_append_colon pc_jsonMode pc_buf", partial: true},
+				"*PrintCtx.pcAppendComma":     {state: "pc_append_comma pc_jsonMode pc_buf", partial: true},
+				"*PrintCtx.pcAppendByte":      {state: "pc_append_byte pc_buf %0", partial: true},
+				"*PrintCtx.appendTimestamp":   {state: "f_ts pc_buf", lazy: true},
+				"colorizeToolS.echoColor":     {state: "Colors.echo_color pc_buf %1", partial: true, lazy: true},
+			},
+			params: []string{"(f_ts : bytes -> bytes)", "(g_hex : bytes)", "(m_safeSet : list (Z * bool))", "(pc : unit)", "(pc_noColor pc_jsonMode : bool)", "(pc_buf : bytes)"},
+			result: "option bytes", final: "Some (pc_buf)"},
+
 		// ---- the skeleton of printImpl after the blank-line rule (C02, C04-C06, C14): which part printers run,
 		// in what order, under which mode bit / flag; the level colours; ONE printOut of pc.Bytes() after End.
 		// The part printers are parameters over the context pc (LayoutRef.pcs)
@@ -856,7 +872,7 @@ var genFiles = [][2]string{
 	{"Termination", "Require Import Verif.Model.Base Verif.Model.Decision Verif.Model.GoSem Verif.Model.Terminate Verif.Model.TermRef."},
 	{"Context", "Require Import Verif.Model.Base Verif.Model.Decision Verif.Model.GoSem Verif.Model.Attrs Verif.Model.PcRef."},
 	{"Colors", "Require Import Verif.Model.Base Verif.Model.Decision Verif.Model.Dec Verif.Model.GoSem Verif.Model.ColorRef."},
-	{"Layout", "Require Import Verif.Model.Base Verif.Model.Decision Verif.Model.GoSem Verif.Model.LayoutRef."},
+	{"Layout", "Require Import Verif.Model.Base Verif.Model.Decision Verif.Model.GoSem Verif.Model.LayoutRef.\nRequire Verif.Gen.Escapes Verif.Gen.Colors."},
 	{"LevelNames", "Require Import Verif.Model.Base Verif.Model.Decision Verif.Model.Dec Verif.Model.GoSem Verif.Model.LevelRef."},
 }
 
